@@ -28,6 +28,8 @@ func main() {
 	case "debug": // debug <id> <tier> <bound> <substr>...: explore the scenarios whose spec contains every substring
 		b, _ := strconv.Atoi(os.Args[4])
 		mc.Debug(os.Args[2], os.Args[3], b, os.Args[5:])
+	case "setup": // setup <id>: only the sequential part of a check (grids, conformance sessions)
+		mc.SetupOnly(os.Args[2])
 	case "count":
 		scs := mc.Defs[os.Args[2]].Gen(os.Args[3])
 		fmt.Println(len(scs))
